@@ -27,6 +27,12 @@ fn gen(seed: u64, idx: u64, _tier: Tier) -> Plan {
         plan.world.faults.send_err = *rng.pick(&[20u32, 100]);
     }
     plan.world.rcv_cap = 4096;
+    if rng.chance(2, 3) {
+        // "a validity window containing the response midpoint" is a statement about every clock
+        // reading: around the epoch, 2^31, 2^32, far future, second / day rollovers (as C11)
+        plan.world.wall_secs = super::c11::pick_secs(&mut rng).min(super::c11::Y9999 - 30);
+        plan.world.wall_nanos = *rng.pick(&super::c11::EDGES);
+    }
     let workers = s.workers as u64;
     plan.server = Some(s);
     let restarts = rng.below(5);
